@@ -311,14 +311,92 @@ pub fn gen_chain<R: Rng>(rng: &mut R) -> Case {
     Case::Chain { group: groups::NAMES[rng.gen_range(0, 7)].to_string(), shape, lj, stages, via_clone: rng.gen_bool(0.5) }
 }
 
+/// User-defined groups (WallpaperGroup is a public struct): the cell a state gets, and keeps
+/// through optimisation, is of the family the group declares - whatever the group is called.
+pub fn check_user_group(seed: u64, st: &mut Stats) {
+    use packing::CrystalFamily;
+    st.eval();
+    let mut rng = crate::common::rng_for(seed, 808);
+    let name = ["p1", "p2", "p2mm", "P2", "p4", "my group", "p2mg", "p1m1", "pg", ""][rng.gen_range(0, 10)];
+    let (family, fname) = [(CrystalFamily::Monoclinic, "Monoclinic"), (CrystalFamily::Orthorhombic, "Orthorhombic"), (CrystalFamily::Tetragonal, "Tetragonal"), (CrystalFamily::Hexagonal, "Hexagonal")][rng.gen_range(0, 4)];
+    // p1 and p2 are compatible with every lattice
+    let ops: Vec<&str> = if rng.gen_bool(0.5) { vec!["x,y"] } else { vec!["x,y", "-x,-y"] };
+    let g = packing::WallpaperGroup { name, family, wyckoff_str: ops.clone() };
+    let lj = rng.gen_bool(0.3);
+    let sides = rng.gen_range(3, 8);
+    let case = json!({"user_group": {"name": name, "family": fname, "operations": ops}, "lj": lj, "sides": sides, "seed": seed});
+    let free_cell = match fname {
+        "Monoclinic" => 3,
+        "Orthorhombic" => 2,
+        _ => 1,
+    };
+    let v = |what: &str, detail: Value| Violation { kind: "c08.usergroup".into(), signature: format!("from_group:{}", what), case: json!({ "user_group_seed": seed }), detail: json!({"case": case, "observed": detail}) };
+    macro_rules! go {
+        ($state:expr) => {{
+            let s0 = match $state {
+                Ok(s) => s,
+                Err(_) => return,
+            };
+            let js0 = match serde_json::to_value(&s0) {
+                Ok(j) => j,
+                Err(_) => return,
+            };
+            st.nontrivial(hash64(&[808, seed]));
+            st.count(&format!("user_groups[{}]", fname));
+            let fam0 = js0["cell"]["family"].as_str().unwrap_or("").to_string();
+            let wfam0 = js0["wallpaper"]["family"].as_str().unwrap_or("").to_string();
+            if fam0 != fname || wfam0 != fname {
+                st.violation(v("cell-not-of-the-family-the-group-declares", json!({"cell_family": fam0, "wallpaper_family": wfam0})));
+                return;
+            }
+            if s0.generate_basis().len() != free_cell + 3 {
+                st.violation(v("wrong-degrees-of-freedom-for-the-crystal-family", json!({"free_parameters": s0.generate_basis().len(), "expected": free_cell + 3})));
+                return;
+            }
+            if s0.score().map(|x| x.is_finite()) != Some(true) {
+                return;
+            }
+            let mut b = packing::BuildOptimiser::default();
+            b.steps(rng.gen_range(50, 600)).inner_steps(100).kt_start([0., 0.1][rng.gen_range(0, 2)]).kt_ratio(Some(0.1)).max_step_size([0.01, 0.2][rng.gen_range(0, 2)]).seed(seed);
+            let out = match std::panic::catch_unwind(std::panic::AssertUnwindSafe(|| serde_json::to_value(&b.build().optimise_state(s0)))) {
+                Ok(Ok(j)) => j,
+                _ => return,
+            };
+            let f = |j: &Value, k: &str| j["cell"][k].as_f64().map(f64::to_bits);
+            let fixed: Vec<&str> = match fname {
+                "Monoclinic" => vec![],
+                "Orthorhombic" => vec!["angle"],
+                _ => vec!["angle", "ratio"],
+            };
+            for k in fixed {
+                if f(&js0, k) != f(&out, k) {
+                    st.violation(v("a-cell-parameter-the-family-fixes-has-moved", json!({"parameter": k, "before": js0["cell"][k], "after": out["cell"][k]})));
+                    return;
+                }
+            }
+            if out["cell"]["family"] != js0["cell"]["family"] || out["wallpaper"]["family"] != js0["wallpaper"]["family"] || out["wallpaper"]["name"] != js0["wallpaper"]["name"] {
+                st.violation(v("labels-changed-by-optimisation", json!({"before": js0["wallpaper"], "after": out["wallpaper"]})));
+            }
+        }};
+    }
+    if lj {
+        go!(PotentialState::from_group(packing::LJShape2::circle(), &g))
+    } else if let Ok(shape) = packing::LineShape::polygon(sides) {
+        go!(PackedState::from_group(shape, &g))
+    }
+}
+
 pub fn run(ctx: &Ctx) {
-    ctx.set_rule("chains of 1..4 optimisation stages (temperatures 0..1e6, steps 1..3000 with one or many loops, max_step 0.001..1, convergence on/off, directly and via clone()) on hard and LJ states of all 7 groups x polygons/circle/trimers; the result of each stage is serialised, re-read and fed to the next. Checked per stage with ranges re-derived from the stage's own start (cell length in [0.01, start], ratio in [0.1, start], oblique angle in [pi/6, pi/2] else bit-identical, x,y in [-1/2,1/2], orientation in [0,2pi]): every state the optimiser evaluates (Spy), the returned state, unchanged group/family labels, number of free parameters of the family, a finite defined score of the re-read result, no panic. Plus validity of the from_group state for every group x shape (polygons 3..64, circle, trimers with finite positive area) x potential. Non-trivial = chains of >= 2 stages or with a parameter clamped at a bound, and every initial-state case; distinct by case");
+    ctx.set_rule("chains of 1..4 optimisation stages (temperatures 0..1e6, steps 1..3000 with one or many loops, max_step 0.001..1, convergence on/off, directly and via clone()) on hard and LJ states of all 7 groups x polygons/circle/trimers; the result of each stage is serialised, re-read and fed to the next. Checked per stage with ranges re-derived from the stage's own start (cell length in [0.01, start], ratio in [0.1, start], oblique angle in [pi/6, pi/2] else bit-identical, x,y in [-1/2,1/2], orientation in [0,2pi]): every state the optimiser evaluates (Spy), the returned state, unchanged group/family labels, number of free parameters of the family, a finite defined score of the re-read result, no panic. Plus user-defined groups (any name, table names included; any of the four families; p1 or p2 operations): the state's cell and labels are of the family the group declares, the family's number of free parameters, and the parameters the family fixes are bit-identical after an optimisation. Plus validity of the from_group state for every group x shape (polygons 3..64, circle, trimers with finite positive area) x potential. Non-trivial = chains of >= 2 stages or with a parameter clamped at a bound, and every initial-state case; distinct by case");
     let n = ctx.tier.pick(24u64, 900u64);
     let prev = std::panic::take_hook();
     std::panic::set_hook(Box::new(|_| {}));
     par_shards(ctx, 8, 64, |i, rng, st| {
         for _ in 0..n {
             check(&gen_chain(rng), st);
+        }
+        for _ in 0..n {
+            check_user_group(rng.gen(), st);
         }
         // initial states: every group x a sweep of shapes, spread over the shards
         for (gi, g) in groups::NAMES.iter().enumerate() {
@@ -346,7 +424,9 @@ pub fn replay(ctx: &Ctx, case: &Value) {
     let prev = std::panic::take_hook();
     std::panic::set_hook(Box::new(|_| {}));
     let mut st = Stats::new();
-    if let Ok(c) = serde_json::from_value::<Case>(case.clone()) {
+    if let Some(seed) = case["user_group_seed"].as_u64() {
+        check_user_group(seed, &mut st);
+    } else if let Ok(c) = serde_json::from_value::<Case>(case.clone()) {
         check(&c, &mut st);
     }
     std::panic::set_hook(prev);
